@@ -465,6 +465,10 @@ func (w *World) Swap(inputs cashu.Proofs, outs []Out) (cashu.BlindedSignatures, 
 	fee := w.FeeFor(inputs)
 	if satAdd(outSum, fee) > inSum {
 		w.Flag("C02", "swap_outputs_exceed_inputs_minus_fee", "inputs %d (true value), fee %d, outputs %d", inSum, fee, outSum)
+		if fee > 0 && satAdd(outSum, 0) <= inSum && w.anyOldKeyset(inputs) {
+			// the value is covered, only the input fee is not, and inputs of a retired keyset are among them
+			w.Flag("C09", "old_keyset_inputs_not_charged_their_fee|swap", "inputs %d incl. proofs of a retired keyset, fee due %d, outputs %d (active keyset %s fee %d)", inSum, fee, outSum, w.ActiveID, w.Keysets[w.ActiveID].Fee)
+		}
 	}
 	w.AcceptInputs("swap", inputs, Spent, -1)
 	w.RecordSignatures("swap", outs, sigs)
@@ -578,6 +582,9 @@ func (w *World) MeltTokens(q *MMeltQuote, inputs cashu.Proofs) (storage.MeltQuot
 	case nut05.Paid:
 		if inSum < q.Amount+q.FeeReserve+fee {
 			w.Flag("C02", "melt_underfunded", "inputs %d < amount %d + fee_reserve %d + fee %d", inSum, q.Amount, q.FeeReserve, fee)
+			if fee > 0 && inSum >= q.Amount+q.FeeReserve && w.anyOldKeyset(inputs) {
+				w.Flag("C09", "old_keyset_inputs_not_charged_their_fee|melt", "inputs %d incl. proofs of a retired keyset < amount %d + fee_reserve %d + fee %d", inSum, q.Amount, q.FeeReserve, fee)
+			}
 		}
 		w.AcceptInputs("melt", inputs, Spent, q.Idx)
 		q.State, q.Preimage = nut05.Paid, r.Preimage
@@ -589,8 +596,12 @@ func (w *World) MeltTokens(q *MMeltQuote, inputs cashu.Proofs) (storage.MeltQuot
 				mq := w.M.MintQuotes[q.InternalTo]
 				w.Flag("C02", "melt_of_foreign_invoice_settled_internally", "melt of a foreign invoice of %d sat settled without any payment against own mint quote %d of %d sat (same payment hash)", q.Amount, mq.Idx, mq.Amount)
 				w.Flag("C03", "mint_quote_settled_by_melt_of_foreign_invoice", "mint quote %d of %d sat marked paid by a melt of %d sat of somebody else's invoice", mq.Idx, mq.Amount, q.Amount)
+			} else if mq := w.M.MintQuotes[q.InternalTo]; q.Amount < mq.Amount {
+				// a melt worth less than the invoice (a partial payment of the mint's own invoice) is not a payment of it
+				w.Flag("C02", "mint_quote_settled_by_smaller_melt", "melt of %d sat (mpp=%v, %d msat) settled without any payment against own mint quote %d of %d sat", q.Amount, q.IsMpp, q.AmountMsat, mq.Idx, mq.Amount)
+				w.Flag("C03", "mint_quote_settled_by_smaller_melt", "mint quote %d of %d sat marked paid by a melt of %d sat (mpp=%v)", mq.Idx, mq.Amount, q.Amount, q.IsMpp)
 			} else {
-				w.M.MintQuotes[q.InternalTo].Internal++
+				mq.Internal++
 			}
 		}
 	case nut05.Pending:
@@ -640,6 +651,16 @@ func (w *World) noteMeltErrorAfterPay(q *MMeltQuote, inputs cashu.Proofs, pays [
 			}
 		}
 	}
+}
+
+// anyOldKeyset reports whether one of the proofs belongs to a keyset that is no longer active.
+func (w *World) anyOldKeyset(ps cashu.Proofs) bool {
+	for _, p := range ps {
+		if p.Id != w.ActiveID {
+			return true
+		}
+	}
+	return false
 }
 
 func secretsOf(ps cashu.Proofs) []string {
